@@ -130,6 +130,42 @@ fn orchestrate(prop: &str, tier: Tier, seed: u64) -> i32 {
     };
     let start = Instant::now();
     let vdir = verif_dir();
+    // oracle self-check against frozen answers of real node-semver 7.6.2 (DESIGN §2.7):
+    // a mismatch means the *oracle* is wrong; nothing is reported about the crate.
+    let uses_range_model = matches!(prop, "C01" | "C02" | "C03" | "C11" | "C13" | "C14");
+    let uses_order_model = matches!(prop, "C04" | "C14" | "C16" | "C07" | "C08" | "C09" | "C10" | "C15");
+    let mut oracle_note = serde_json::Map::new();
+    if uses_range_model {
+        match golden::check_ranges(&vdir.join("golden"), usize::MAX) {
+            Ok(rep) if rep.mismatches.is_empty() => {
+                oracle_note.insert("golden_range_answers_checked".into(), serde_json::json!(rep.probe_answers));
+                oracle_note.insert("golden_range_answers_in_ambiguity_zones".into(), serde_json::json!(rep.ambiguous));
+            }
+            Ok(rep) => {
+                println!("HARNESS-ERROR: range model disagrees with frozen node-semver 7.6.2 answers outside the declared zones: {:?}", rep.mismatches);
+                return 2;
+            }
+            Err(e) => {
+                println!("HARNESS-ERROR: golden corpus unreadable: {}", e);
+                return 2;
+            }
+        }
+    }
+    if uses_order_model {
+        match golden::check_pairs(&vdir.join("golden")) {
+            Ok((n, bad)) if bad.is_empty() => {
+                oracle_note.insert("golden_compare_and_diff_answers_checked".into(), serde_json::json!(n));
+            }
+            Ok((_, bad)) => {
+                println!("HARNESS-ERROR: order/diff model disagrees with frozen node-semver 7.6.2 answers: {:?}", bad);
+                return 2;
+            }
+            Err(e) => {
+                println!("HARNESS-ERROR: golden corpus unreadable: {}", e);
+                return 2;
+            }
+        }
+    }
     let run_dir = vdir.join("target").join("runs").join(format!("{}-{}-{}", prop, tier.name(), std::process::id()));
     let n = monitors::shards_for(prop, tier);
     let wall_cap = Duration::from_secs(tier.pick(15 * 60, 120 * 60));
@@ -170,6 +206,9 @@ fn orchestrate(prop: &str, tier: Tier, seed: u64) -> i32 {
     }
     if prop == "C06" {
         c06_stages::run_all(tier, &vdir, &mut m);
+    }
+    for (k, v) in oracle_note {
+        m.extra.insert(k, v);
     }
     let spec = RunSpec {
         prop: prop.to_string(),
